@@ -238,6 +238,122 @@ theorem C15_append_roundtrip (c : Codec) (g : c.Good) (fs : FS) (p s1 s2 m eol t
   exact filesLoad_encoded c g _ p (s1 ++ s2) eol (y1 ++ y2) ha hd (by
     unfold NoCR at *; simp only [List.mem_append, not_or]; exact ⟨h1, h2⟩) e12 hdisk
 
+/-! ### The concrete codecs: the assumptions discharged
+
+`Codec.Good` is a theorem for each of the four codec models (`Proofs/FilesCodec.lean`): utf-8 and
+utf-8-sig (1–4 byte forms, strict decoder), latin-1, and cp1252 — a table codec whose table is
+generated from the interpreter (`Gen/Cp1252.lean`).  The statements below are the instances of
+`C15_disk_bytes`, `C15_roundtrip` and `C15_lines` without the abstract hypothesis; for utf-8 and
+utf-8-sig every text is encodable, so no encodability hypothesis is left either. -/
+
+/-- **the four codecs satisfy the assumptions** -/
+theorem C15_codecs_good : utf8.Good ∧ utf8sig.Good ∧ latin1.Good ∧ cp1252.Good :=
+  ⟨utf8_good, utf8sig_good, latin1_good, cp1252_good⟩
+
+/-- **C15 (bytes on disk, utf-8)**: every text, every EOL: the file is the utf-8 form of `text.replace('\n', EOL)` -/
+theorem C15_disk_bytes_utf8 (fs : FS) (p text m eol tag : Str) (hm : SaveMode m) (hf : Fresh fs p m) :
+    (saveFile utf8 fs p (.str text) m eol tag).2 = .ok ()
+    ∧ (saveFile utf8 fs p (.str text) m eol tag).1 p = some (utf8Enc (replace lf eol text))
+    ∧ ∀ q, q ≠ p → (saveFile utf8 fs p (.str text) m eol tag).1 q = fs q := by
+  have h := C15_disk_bytes utf8 fs p text m eol tag (utf8Enc (replace lf eol text)) (utf8Enc eol) hm hf rfl rfl
+  exact ⟨h.1, by rw [h.2.1]; rfl, h.2.2⟩
+
+/-- **C15 (bytes on disk, utf-8-sig)**: the signature once, at offset 0, then the utf-8 form -/
+theorem C15_disk_bytes_utf8sig (fs : FS) (p text m eol tag : Str) (hm : SaveMode m) (hf : Fresh fs p m) :
+    (saveFile utf8sig fs p (.str text) m eol tag).2 = .ok ()
+    ∧ (saveFile utf8sig fs p (.str text) m eol tag).1 p = some (bomUtf8 ++ utf8Enc (replace lf eol text))
+    ∧ ∀ q, q ≠ p → (saveFile utf8sig fs p (.str text) m eol tag).1 q = fs q := by
+  have h := C15_disk_bytes utf8sig fs p text m eol tag (utf8Enc (replace lf eol text)) (utf8Enc eol) hm hf rfl rfl
+  exact ⟨h.1, by rw [h.2.1]; rfl, h.2.2⟩
+
+/-- **C15 (bytes on disk, cp1252)**: an encodable text and an ASCII EOL -/
+theorem C15_disk_bytes_cp1252 (fs : FS) (p text m eol tag : Str) (y : Bytes) (hm : SaveMode m) (hf : Fresh fs p m)
+    (ha : IsAscii eol) (henc : cp1252.enc (replace lf eol text) = some y) :
+    (saveFile cp1252 fs p (.str text) m eol tag).2 = .ok ()
+    ∧ (saveFile cp1252 fs p (.str text) m eol tag).1 p = some y
+    ∧ ∀ q, q ≠ p → (saveFile cp1252 fs p (.str text) m eol tag).1 q = fs q := by
+  have h := C15_disk_bytes cp1252 fs p text m eol tag y eol hm hf henc (cp1252_good.enc_ascii eol ha)
+  refine ⟨h.1, ?_, h.2.2⟩
+  rw [h.2.1, Codec.encode, henc]; rfl
+
+/-- **C15 (round trip, utf-8)**: no hypothesis on the codec, none on encodability -/
+theorem C15_roundtrip_utf8 (fs : FS) (p text m eol tag : Str)
+    (hm : SaveMode m) (hf : Fresh fs p m) (ha : IsAscii eol) (hd : EolDisjoint eol text) (hcr : NoCR text) :
+    loadFile utf8 (saveFile utf8 fs p (.str text) m eol tag).1 p ['t'] eol = .ok (.str text) :=
+  C15_roundtrip utf8 utf8_good fs p text m eol tag _ hm hf ha hd hcr rfl
+
+/-- **C15 (round trip, utf-8-sig)** -/
+theorem C15_roundtrip_utf8sig (fs : FS) (p text m eol tag : Str)
+    (hm : SaveMode m) (hf : Fresh fs p m) (ha : IsAscii eol) (hd : EolDisjoint eol text) (hcr : NoCR text) :
+    loadFile utf8sig (saveFile utf8sig fs p (.str text) m eol tag).1 p ['t'] eol = .ok (.str text) :=
+  C15_roundtrip utf8sig utf8sig_good fs p text m eol tag _ hm hf ha hd hcr rfl
+
+/-- **C15 (round trip, cp1252)**: every text the generated table can encode -/
+theorem C15_roundtrip_cp1252 (fs : FS) (p text m eol tag : Str) (y : Bytes)
+    (hm : SaveMode m) (hf : Fresh fs p m) (ha : IsAscii eol) (hd : EolDisjoint eol text) (hcr : NoCR text)
+    (henc : cp1252.enc (replace lf eol text) = some y) :
+    loadFile cp1252 (saveFile cp1252 fs p (.str text) m eol tag).1 p ['t'] eol = .ok (.str text) :=
+  C15_roundtrip cp1252 cp1252_good fs p text m eol tag y hm hf ha hd hcr henc
+
+/-- **C15 (round trip, latin-1)** -/
+theorem C15_roundtrip_latin1 (fs : FS) (p text m eol tag : Str) (y : Bytes)
+    (hm : SaveMode m) (hf : Fresh fs p m) (ha : IsAscii eol) (hd : EolDisjoint eol text) (hcr : NoCR text)
+    (henc : latin1.enc (replace lf eol text) = some y) :
+    loadFile latin1 (saveFile latin1 fs p (.str text) m eol tag).1 p ['t'] eol = .ok (.str text) :=
+  C15_roundtrip latin1 latin1_good fs p text m eol tag y hm hf ha hd hcr henc
+
+/-- **C15 (lines, utf-8)** -/
+theorem C15_lines_utf8 (fs : FS) (p : Str) (ls : List Str) (m eol tag : Str)
+    (hm : TextMode m) (hf : Fresh fs p m) (hstd : isStdEol eol = true) (hl : ∀ l ∈ ls, NoCR l ∧ NoLF l) :
+    (saveFile utf8 fs p (.lines (ls.map Line.str)) m eol tag).2 = .ok ()
+    ∧ (saveFile utf8 fs p (.lines (ls.map Line.str)) m eol tag).1 p = some (utf8Enc (replace lf eol (unlines ls)))
+    ∧ loadLines utf8 (saveFile utf8 fs p (.lines (ls.map Line.str)) m eol tag).1 p ['t'] eol
+        = .ok (ls.map Loaded.str) := by
+  have h := C15_lines utf8 utf8_good fs p ls m eol tag _ hm hf hstd hl rfl
+  refine ⟨h.1, ?_, h.2.2⟩
+  rw [h.2.1]; cases ls <;> rfl
+
+/-- **C15 (lines, utf-8-sig)**: one signature at offset 0 (none for an empty list) -/
+theorem C15_lines_utf8sig (fs : FS) (p : Str) (ls : List Str) (m eol tag : Str)
+    (hm : TextMode m) (hf : Fresh fs p m) (hstd : isStdEol eol = true) (hl : ∀ l ∈ ls, NoCR l ∧ NoLF l) :
+    (saveFile utf8sig fs p (.lines (ls.map Line.str)) m eol tag).2 = .ok ()
+    ∧ (saveFile utf8sig fs p (.lines (ls.map Line.str)) m eol tag).1 p
+        = some ((if ls.isEmpty then [] else bomUtf8) ++ utf8Enc (replace lf eol (unlines ls)))
+    ∧ loadLines utf8sig (saveFile utf8sig fs p (.lines (ls.map Line.str)) m eol tag).1 p ['t'] eol
+        = .ok (ls.map Loaded.str) :=
+  C15_lines utf8sig utf8sig_good fs p ls m eol tag _ hm hf hstd hl rfl
+
+/-- **C15 (lines, cp1252)** -/
+theorem C15_lines_cp1252 (fs : FS) (p : Str) (ls : List Str) (m eol tag : Str) (y : Bytes)
+    (hm : TextMode m) (hf : Fresh fs p m) (hstd : isStdEol eol = true) (hl : ∀ l ∈ ls, NoCR l ∧ NoLF l)
+    (henc : cp1252.enc (replace lf eol (unlines ls)) = some y) :
+    (saveFile cp1252 fs p (.lines (ls.map Line.str)) m eol tag).2 = .ok ()
+    ∧ (saveFile cp1252 fs p (.lines (ls.map Line.str)) m eol tag).1 p = some y
+    ∧ loadLines cp1252 (saveFile cp1252 fs p (.lines (ls.map Line.str)) m eol tag).1 p ['t'] eol
+        = .ok (ls.map Loaded.str) := by
+  have h := C15_lines cp1252 cp1252_good fs p ls m eol tag y hm hf hstd hl henc
+  refine ⟨h.1, ?_, h.2.2⟩
+  rw [h.2.1]; cases ls <;> rfl
+
+/-- **C15 (utf-8 decoder is strict)**: the decoder of the model accepts exactly the encoder's
+output — `decode ∘ encode = id`, and nothing else decodes (overlong forms, encoded surrogates,
+values above U+10FFFF, truncated sequences are `UnicodeDecodeError`). -/
+theorem C15_utf8_strict (b : Bytes) (s : Str) : utf8.dec b = some s ↔ utf8.enc s = some b := by
+  show utf8Dec b = some s ↔ some (utf8Enc s) = some b
+  rw [utf8Dec_eq_some_iff]; simp
+
+/-- **C15 (utf-8-sig signature)**: a fresh encoder writes it once at position 0; the reader skips
+it once (a second one is the character U+FEFF); a text-mode read of a file that is a strict prefix
+of the signature yields the empty text while `bytes.decode` raises. -/
+theorem C15_utf8sig_bom (s : Str) :
+    utf8sig.encode s = some (bomUtf8 ++ utf8Enc s)
+    ∧ utf8sig.decode (bomUtf8 ++ utf8Enc s) = some s
+    ∧ utf8sig.decode (bomUtf8 ++ (bomUtf8 ++ utf8Enc s)) = some (Char.ofNat 0xFEFF :: s)
+    ∧ utf8sig.decodeStream [Char.ofNat 0xEF] = some [] ∧ utf8sig.decodeStream [Char.ofNat 0xEF, Char.ofNat 0xBB] = some []
+    ∧ utf8sig.decode [Char.ofNat 0xEF] = none ∧ utf8sig.decode [Char.ofNat 0xEF, Char.ofNat 0xBB] = none :=
+  ⟨rfl, utf8sig_decode_bom s, utf8sig_decode_bom_twice s, utf8sig_decodeStream_prefix.1, utf8sig_decodeStream_prefix.2.1,
+   utf8sig_decodeStream_prefix.2.2.1, utf8sig_decodeStream_prefix.2.2.2⟩
+
 /-! ### Non-vacuity: concrete inhabitants of the hypotheses, exercising every path -/
 
 example : latin1.Good := latin1_good
@@ -263,5 +379,21 @@ example : (saveFile asciiSig (saveFile asciiSig (fun _ => none) ['f'] (.str ['1'
 -- bytes under a text mode
 example : (saveFile utf8sig (fun _ => none) ['f'] (.bytes ['\r', '\n', 'x']) ['t'] ['|'] ['=']).1 ['f']
     = some ['\r', '\n', 'x'] := by decide
+
+-- the concrete codecs: 1-4 byte forms through the manual path (custom EOL) and the text layer
+example : loadFile utf8sig (saveFile utf8sig (fun _ => none) ['f'] (.str ['é', '\n', '€', '😀', '\n']) ['w', 't']
+    ['|', '~', '|'] ['=']).1 ['f'] ['t'] ['|', '~', '|'] = .ok (.str ['é', '\n', '€', '😀', '\n']) := by decide
+example : (saveFile utf8 (fun _ => none) ['f'] (.str ['é', '\n']) ['t'] ['\r', '\n'] ['=']).1 ['f']
+    = some [Char.ofNat 0xC3, Char.ofNat 0xA9, '\r', '\n'] := by decide
+-- cp1252 through the generated table: U+20AC is byte 0x80, U+0081 has no byte, byte 0x81 no character
+example : cp1252.enc ['€', 'a', 'ÿ'] = some [Char.ofNat 0x80, 'a', 'ÿ'] ∧ cp1252.enc [Char.ofNat 0x81] = none
+    ∧ cp1252.dec [Char.ofNat 0x80] = some ['€'] ∧ cp1252.dec [Char.ofNat 0x81] = none := by decide +kernel
+example : loadFile cp1252 (saveFile cp1252 (fun _ => none) ['f'] (.str ['€', '\n', 'é']) ['a', 't'] ['\n', '\r'] ['=']).1
+    ['f'] ['t'] ['\n', '\r'] = .ok (.str ['€', '\n', 'é']) := by decide +kernel
+-- lines and append on the manual path with a signature codec (the former findings): one signature
+example : (saveFile utf8sig (fun _ => none) ['f'] (.lines [.str ['a'], .bytes ['b'], .other ['7']]) ['b'] [';'] ['=']).1 ['f']
+    = some (bomUtf8 ++ ['a', ';', 'b', ';', '7', ';']) := by decide
+example : (saveFile utf8sig (FS.write (fun _ => none) ['f'] ['x']) ['f'] (.lines [.str ['a']]) ['a', 't'] [';'] ['=']).1 ['f']
+    = some ['x', 'a', ';'] := by decide
 
 end N0.C15
